@@ -29,6 +29,30 @@ def sh(cmd, **kw):
     return p.returncode, p.stdout
 
 
+def demo(n):
+    """the change's own demonstration, built and run inside the scratch worktree (whatever
+    state it is in: with or without the patch).  Returns the exit status or None."""
+    src = os.path.join(SEED, n)
+    if not os.path.exists(os.path.join(src, "demo.sh")):
+        return None
+    d = os.path.join("/tmp", "confirm_demo_dir", n)
+    sh(f"rm -rf {d}; mkdir -p {d}; cp -r {src}/. {d}/")
+    wt = "/tmp/seed-" + n.split("-")[0].lower()
+    sh(f"grep -rlZ '{wt}' {d} | xargs -0 -r sed -i 's#{wt}#{WT}#g'")
+    B = f"{WT}/_build"
+    sh(f"nice -n 10 ninja -C {B} -j6 libcorecel.so libgeocel.so liborange.so libceleritas.so "
+       f"test/celeritas/libtestcel_celeritas.so 2>&1 | tail -3")
+    envs = (f"R={WT} B={B} SRC={WT} BUILD={B} CELER_SRC={WT} CELER_BUILD={B} REPO_ROOT={WT} "
+            f"BUILD_DIR={B} CELER_SOURCE_ROOT={WT} ROOT={WT} CELER_ROOT={WT} WT={WT} "
+            f"CFG={B}/include")
+    script = open(os.path.join(d, "demo.sh")).read()
+    if "$ROOT/seeded" in script:   # header-only demos addressed through the seeding tree
+        sh(f"sed -i 's#\\$ROOT/seeded/m[0-9]*#{d}#g' {d}/demo.sh")
+    rc, out = sh(f"{envs} timeout 1800 sh {d}/demo.sh {WT} {B}", cwd=d)
+    sh(f"rm -rf {d}")
+    return rc
+
+
 def main():
     names = sys.argv[1:] or sorted(d for d in os.listdir(SEED) if re.match(r"C\d\d-m\d+$", d))
     resf = os.path.join(SEED, "TESTS.json")
@@ -51,8 +75,13 @@ def main():
         results[n] = {"done": True, "applies": True, "build_tail": out[-300:], "area_regex": AREA[pid],
                       "tests_total": int(m.group(3)) if m else None,
                       "tests_failed": failed, "tests_pass": bool(m) and not failed}
-        print(n, "tests pass" if results[n]["tests_pass"] else f"TESTS FAIL {failed}", results[n]["tests_total"])
+        results[n]["demo_exit_with_change"] = demo(n)
         sh(f"git -C {WT} checkout -- .")
+        results[n]["demo_exit_without_change"] = demo(n)
+        results[n]["demo_confirms"] = (results[n]["demo_exit_with_change"] not in (0, None)
+                                       and results[n]["demo_exit_without_change"] == 0)
+        print(n, "tests pass" if results[n]["tests_pass"] else f"TESTS FAIL {failed}", results[n]["tests_total"],
+              "demo with/without:", results[n]["demo_exit_with_change"], results[n]["demo_exit_without_change"], flush=True)
         json.dump(results, open(resf, "w"), indent=1, sort_keys=True)
     sh(f"git -C {WT} checkout -- .")
     return 0
